@@ -107,7 +107,7 @@ def handle (s : S) (i : Nat) (j : Json) : S × List Json :=
         -- a permissionless CREATE message aimed at an object that already exists (and is governance's to change): whatever its
         -- other fields say, it must be refused and the stored object must stay as it is - otherwise it is an update without authority
         let vs : List Json :=
-          (if iAccepted then [verdictViol i "C17.existing_object_overwritten" detail] else []) ++
+          (if iAccepted then [verdictViol i (if ((fStr? j "variant").getD "").startsWith "listGated" then "C17.list_gated_refused" else "C17.existing_object_overwritten") detail] else []) ++
           (if !iAccepted && !changed.isEmpty then [verdictViol i "C17.state_unchanged" detail] else [])
         (s', if vs.isEmpty then [verdictOk i] else vs)
       else (s', [verdictBad i "c17.case kind"])
